@@ -113,6 +113,8 @@ static void apply(void *vs, int op)
 {
     st_t *s = vs; op_t *o = &OPS[op]; const char *shape = s->n == 0 ? "empty list" : "non-empty list";
     const char *m = "?";
+    /* a caller looks at the last element before every operation (so every operation is preceded and followed by a positional read) */
+    if (s->n > 0 && s->l && (int) SPIF_LIST_COUNT(s->l) == s->n) { spif_obj_t g = SPIF_LIST_GET(s->l, s->n - 1); if (g != s->e[s->n - 1]) { mc_set_shape("idx in range"); FAIL(site("get"), "model:return", "idx in range", "get(%d) on %d elements, asked between two operations, returned %s", s->n - 1, s->n, g ? "a wrong element" : "NULL"); } }
     switch (o->k) {
     case K_APPEND: { spif_obj_t x = mk(o->x); m = "append"; mc_set_shape(shape);
         spif_bool_t r = SPIF_LIST_APPEND(s->l, x);
@@ -203,6 +205,8 @@ static void probe(void *vs)
     int holes = 0; for (int i = 0; i < n; i++) if (!s->e[i]) holes++;
     const char *shape = n == 0 ? "empty list" : (holes ? "list with NULL placeholders" : "non-empty list");
     mc_set_shape(shape);
+    /* the first thing asked of the list after the operation is its last position (the last thing asked before the operation was the same position) */
+    if (n > 0 && (int) SPIF_LIST_COUNT(l) == n) { spif_obj_t g = SPIF_LIST_GET(l, n - 1); if (g != s->e[n - 1]) FAIL(site("get"), "model:return", "idx in range", "get(%d) on %d elements, asked first after the operation, returned %s", n - 1, n, g ? "a wrong element" : "NULL"); }
     /* a second list of the same class lives next to this one for a moment: its first append and prepend right after whatever this one just did concern only itself */
     { spif_list_t b = new_list(); spif_obj_t x = mk(0), y = mk(1);
       if (!SPIF_LIST_APPEND(b, x) || !SPIF_LIST_PREPEND(b, y)) FAIL(site("append"), "model:return", shape, "append/prepend on a second, empty list returned FALSE");
